@@ -288,3 +288,30 @@ def run(A, R: Report, thorough: bool):
         other = [e for e in evs if e not in hits and not (e.kind == 'FS_DELETE' and tmp is not None and same_path(e.target, tmp))]
         R.check(bool(hits) and not other, 'R07.5', f'{ci.short}.delete', key_of('delete', ci.short, [e.kind for e in other], bool(hits)), f'deletes {pretty(vis[0])}',
                 'delete() does not remove the visible path' if not hits else f'delete() also touches {[e.describe() for e in other]}', witness=[e.describe() for e in evs], where=where(f))
+
+    # ---- R07.7 a recomputed result replaces the stored one as a whole
+    R.rule('R07.7', 'publishing a result replaces what was stored under that location entirely: the only effects on the visible path are its removal and the rename of the new result into place', floor=9)
+    for ci, vis in classes:
+        n_ev = 0
+        bad = []
+        renames = []
+        for mname in ('save', 'finished', 'set_value'):
+            f = ci.lookup(mname)
+            if f is None:
+                continue
+            for e in E.collect(Ctx(f, ('inst', ci)), kinds=FS_MUTATING):
+                cl = classify(e.target, vis)
+                if cl not in ('visible', 'inside'):
+                    continue
+                n_ev += 1
+                if e.kind == 'FS_RENAME' and cl == 'visible':
+                    renames.append(e)
+                elif e.kind != 'FS_DELETE':
+                    bad.append((mname, e))
+        where_f = where(ci.lookup('save') or ci.lookup('finished') or ci.lookup('set_value'))
+        if bad:
+            mname, e = bad[0]
+            R.violation('R07.7', f'{ci.short}.{mname}', key_of('merge-into-stored', ci.short, e.kind), f'{e.kind} into the already stored result `{pretty(e.target)[:80]}`: the forced recomputation is merged into the old result instead of replacing it (files the new run does not produce survive)',
+                        witness=[e.describe()[:300]], where=where_f)
+        else:
+            R.ok('R07.7', ci.short, f'{len(renames)} publishing rename(s); no other write reaches the visible path', where=where_f)
